@@ -8,13 +8,26 @@
  *
  * Oracle for a request (op, start, end, type), M = table rows with start <= handle <= end and matching type, ascending:
  *   M empty      -> Error Response (Attribute Not Found 0x0A, handle = start; for start == 0 or start > end: any
- *                   Error Response; Read By Group Type with a type other than <<Primary Service>>: Unsupported Group
- *                   Type 0x10 is accepted as well)
+ *                   Error Response; Read By Group Type with a type other than the 16 bit <<Primary Service>>: Unsupported
+ *                   Group Type 0x10 is accepted as well)
  *   M not empty  -> response opcode op+1, at least one entry, the entries are M[0], M[1], ... M[n-1] without omission
  *                   (n is free: "fewer than would fit" is accepted), all of one format / length, complete values
  *                   (truncated only by MTU), response not longer than the MTU.
  */
 #include "c02_tables.h"
+
+#ifdef VF_CBMC
+/* CBMC's built-in memcpy model (array_copy / array_replace over a variable-length temporary) returns unconstrained bytes
+ * when the length is not a constant and the destination is a local array (scattered_read_access() into the buffer of
+ * write_128bit_uuid()): an over-approximation that makes Find Information fail spuriously (the counterexample does not
+ * replay).  This byte loop is exact; its bound is set with --unwindset memcpy.0:N (longest copy: 64 byte struct assignment). */
+void* memcpy(void* d, const void* s, size_t n)
+{
+    unsigned char* dd = (unsigned char*)d; const unsigned char* ss = (const unsigned char*)s;
+    for (size_t i = 0; i < n; ++i) dd[i] = ss[i];
+    return d;
+}
+#endif
 
 #define NONE (-1)
 
@@ -101,7 +114,7 @@ void harness(void)
     if (first == NONE) {
         if (start == 0 || start > end)
             CHECK(is_any_error(out, os, opc), "C02: invalid handle range is answered with an Error Response");
-        else if (opc == 0x10 && !(t.is16 && t.u16 == 0x2800))
+        else if (opc == 0x10 && (len == 21 || !(t.is16 && t.u16 == 0x2800)))
             CHECK(is_error(out, os, opc, start, 0x0A) || is_error(out, os, opc, start, 0x10),
                   "C02: no attribute of the group type in range: Attribute Not Found or Unsupported Group Type");
         else
